@@ -16,20 +16,41 @@ import re
 import subprocess
 import sys
 
-ROOT = "/verif"
+ROOT = os.environ.get("VERIF_ROOT", "/verif")
 
 # functions modelled completely (every inventory entry inside them needs a disposition)
 MODELLED = {
     "api/util.go": ["AmountToString", "StringToAmount", "checkLocktime", "checkAddressLen", "checkWalletIdLen",
-                    "checkTransactionIdLen", "checkMnemonicLen", "checkPassLen", "checkParseAmount", "checkFormatAmount"],
-    "api/wallet_service.go": ["decodeHexStr"],
+                    "checkTransactionIdLen", "checkMnemonicLen", "checkPassLen", "checkParseAmount", "checkFormatAmount",
+                    # second group
+                    "checkNotEmpty", "isEmpty", "checkWitnessAddress", "parseBindingTarget", "checkTxFeeLimit"],
+    "api/wallet_service.go": ["decodeHexStr", "APIServer.Wallets"],
+    # second group: the API methods themselves (argument checks in source order, every index / nil site inside them)
+    "api/tx_service.go": ["APIServer.CreateStakingTransaction", "APIServer.CreateBindingTransaction",
+                          "APIServer.CreatePoolPkCoinbaseTransaction", "APIServer.AutoCreateTransaction",
+                          "APIServer.GetTransactionFee", "mockBindingTarget", "getEstimateStakingAddress",
+                          "APIServer.GetStakingHistory", "APIServer.GetBindingHistory", "APIServer.SendRawTransaction",
+                          "APIServer.GetNetworkBinding", "APIServer.CheckPoolPkCoinbase", "APIServer.CheckTargetBinding",
+                          "APIServer.GetRawTransaction", "APIServer.createTxRawResult", "APIServer.createVinList",
+                          "createVoutList", "APIServer.getStatus", "witnessToHex"],
+    "api/block_service.go": ["APIServer.GetBestBlock", "APIServer.GetBlockByHeight", "APIServer.marshalGetBlockResponse",
+                             "APIServer.getTxType", "APIServer.createBlockTx", "createNormalProposalResult",
+                             "createFaultPubKeyResult", "createPoCSignatureResult", "APIServer.GetBlockStakingReward"],
     "masswallet/tx.go": ["WalletManager.constructTxIn", "WalletManager.estimateSignedSize", "WalletManager.signWitnessTx",
                          "WalletManager.EstimateManualTxFee", "WalletManager.findEligibleUtxos", "selectRelatedTx",
-                         "WalletManager.prevTxHeight"],
+                         "WalletManager.prevTxHeight",
+                         "WalletManager.EstimateTxFee", "WalletManager.EstimateStakingTxFee", "WalletManager.EstimateBindingTxFee",
+                         "constructStakingTxOut"],
     "masswallet/common.go": ["WalletManager.addTxIn", "WalletManager.existsMsgTx", "WalletManager.existsUnminedTx",
-                             "WalletManager.existsOutPoint", "AmountToString"],
+                             "WalletManager.existsOutPoint", "AmountToString", "WalletManager.prepareFromAddresses"],
     "masswallet/wallet.go": ["WalletManager.CreateRawTransaction", "WalletManager.SignRawTx",
-                             "WalletManager.GetAllAddressesWithPubkey", "WalletManager.NewAddress"],
+                             "WalletManager.GetAllAddressesWithPubkey", "WalletManager.NewAddress",
+                             "WalletManager.AutoCreateRawTransaction", "WalletManager.CreateStakingTransaction",
+                             "WalletManager.CreateBindingTransaction", "WalletManager.MarkUsedUTXO",
+                             "WalletManager.ClearUsedUTXOMark", "WalletManager.GetStakingHistory",
+                             "WalletManager.GetBindingHistory", "WalletManager.Wallets"],
+    "masswallet/txmgr/utxostore.go": ["UtxoStore.GetBindingHistoryDetail", "UtxoStore.GetUnminedBindingHistoryDetail",
+                                      "UtxoStore.GetStakingHistoryDetail", "UtxoStore.GetUnminedStakingHistoryDetail"],
     "masswallet/ntfnshandler.go": ["NtfnsHandler.IsWorkerBusy", "NtfnsHandler.OnImportWallet", "NtfnsHandler.OnRemoveWallet"],
     "masswallet/task.go": ["WalletTaskChan.IsBusy", "WalletTaskChan.PushImport", "WalletTaskChan.PushRemove"],
 }
@@ -43,6 +64,7 @@ PARTIAL = {
     ("masswallet/txmgr/txstore.go", "TxStore.ExistsUtxo"): [("nil", r"^am$"), ("nilx", r"CurrentKeystore")],
     ("masswallet/txmgr/utxostore.go", "UtxoStore.ScriptAddressBalance"): [("nil", r"^am$"), ("nilx", r"CurrentKeystore")],
     ("masswallet/txmgr/utxostore.go", "UtxoStore.ScriptAddressUnspents"): [("nil", r"^am$"), ("nilx", r"CurrentKeystore")],
+    ("masswallet/keystore/manager.go", "KeystoreManager.GetManagedAddressByScriptHashInCurrent"): [("nilx", r"managedKeystores"), ("nil", r"^addrManager$")],
 }
 
 CONTRACT_NONNIL = (
@@ -52,7 +74,82 @@ CONTRACT_NONNIL = (
     r"\.GetAddrManager\(|acctM\.Address\(|\.GetWalletStatus\(|tx\.TxHash\(\)|mtx\.TxHash\(\)")
 
 
+CONTRACT_NONNIL2 = (
+    r"GetBlockByHeight\(|block\.Tx\(0\)|NewCoinbasePayload\(|NewAddressStakingScriptHash\(|NewAddressBindingTarget\(|\.GetTransaction\(|"
+    r"GetBlockHashByHeight\(|checkWitnessAddress\(|checkParseAmount\(|parseBindingTarget\(|GetNewBinding\(|GetNetworkBinding\(|"
+    r"GetRequiredBinding\(|FetchTransaction\(|massutil\.NewTx\(|wire\.NewMsgTx\(|EstimateBindingTxFee\(|EstimateStakingTxFee\(|"
+    r"EstimateTxFee\(|EstimateManualTxFee\(|findEligibleUtxos\(|MinRelayTxFee\(|ks\.Address\(|am\.Address\(|newTopKSelector\(|"
+    r"SyncedTo\(|DecodeAddress\(|GetAddrManagerByAccountID\(|FetchTxByLoc\(|reflect\.ValueOf\(|reflect\.Zero\(|ParsePkScript\(|"
+    r"\.MsgTx\(\)|\.MsgBlock\(\)|\.Hash\(\)|\.BlockHash\(\)|\.TxHash\(\)|\.UTC\(\)|\.Quality\(\)|\.Version\(\)|\.Elem\(\)|"
+    r"s\.node\.Blockchain\(\)$|s\.node\.TxMemPool\(\)$|w\.server\.TxMemPool\(\)$")
+
+
+def disposition2(e):
+    """the second group of API methods (tx_service.go, block_service.go, Wallets, the txmgr history readers)"""
+    k, f, fn, expr, var = e["kind"], e["file"], e["func"], e["expr"], e.get("var", "")
+    short = fn.split(".")[-1]
+    site = lambda s, lemma, note="": "site:%s lemma:%s%s" % (s, lemma, (" — " + note) if note else "")
+    chain = "assumption: the transaction comes from the node (validated block / validated mempool): an input refers to an existing output (wf_bin)"
+    if k == "index":
+        table = {
+            ("CheckTargetBinding", "target.ScriptAddress()[2"): site("PTargetIdx", "check_target_no_panic", "a valid binding target that is not a pubkey hash is a *AddressBindingTarget, whose script is a [22]byte"),
+            ("GetBindingHistoryDetail", "msgtx.TxOut[index]"): site("PBindHistIndex", "bind_detail_spec", "GENUINE DEFECT, not repaired (switch fx_bindhist_hash = false in current_code): the transaction fetched by (height, location) is not compared with the recorded hash; fires while the wallet lags behind a reorganisation of the node (scenario lagging-reorg); with the hash test: the recorded output exists (wf_bind_row)"),
+            ("GetUnminedBindingHistoryDetail", "rec.MsgTx.TxOut[index]"): site("PBindHistIndex", "bind_detail_spec", "the unmined record is the one the history row was written for (wf_bind_row, br_mined = false)"),
+            ("GetBindingHistory", "prevMtx.TxOut["): site("PBindHistPrevIndex", "bind_froms_no_panic", chain),
+            ("getTxType", "tx.TxOut[index]"): site("PTxTypeIndex", "tx_type_ins_no_panic", chain),
+            ("createVinList", "prevTx.TxOut["): site("PVinIndex", "vin_list_no_panic", chain),
+            ("GetBlockStakingReward", "txOuts[j]"): site("PRewardTxOut", "reward_outs_no_panic", "consensus: the coinbase pays the NumStakingReward() rewards its payload announces first (wf_env)"),
+        }
+        for (fname, pre), d in table.items():
+            if short == fname and expr.startswith(pre):
+                return d
+        if re.search(r"^(ret|histories)\[[ij]\]", expr):
+            return "generic:sort_less_in_bounds"
+    if k == "inlined":
+        if expr.endswith(".String()"):
+            return "generic:hash_string_in_bounds — wire.Hash.String() inlined"
+        if "hex.EncodeToString" in expr:
+            return "generic:hex_encode_in_bounds — hex.EncodeToString inlined"
+        if expr.endswith(".Transactions()"):
+            return "contract: massutil.Block.Transactions() fills its cache in a counted loop over the block's own transaction slice"
+        if expr.endswith(".Bytes()"):
+            return "contract:bytes.Buffer.Bytes() slices its own buffer inside its bounds"
+    if k in ("nil", "nilx", "field"):
+        if short == "GetManagedAddressByScriptHashInCurrent":
+            return site("PCurEvictedNil", "validate_address_panic_needs_evicted", "GENUINE DEFECT, not repaired (switch fx_cur_evicted = false in current_code): the map entry of the keystore km.currentKeystore names is gone after a failed NewAddress whose reload failed too (closed database); scenario stopped")
+        if short == "GetBindingHistory" and var == "detail":
+            return site("PBindHistTargetNil", "bind_history_entry_panic", "the element's interface field Utxo.BindingTarget (script.SecondAddress()) is nil when the fetched output is not a binding script: same defect as PBindHistIndex; with the hash test the output is the recorded binding output (wf_bind_row). Elements themselves are never nil (built by the two history readers)")
+        if k == "field":
+            si = e.get("set_in", "")
+            if si and all(x.startswith("New") or x == "…" for x in si.split(",")):
+                return "constructor: assigned once in %s, never nil afterwards" % si
+            if expr.endswith((".mu", ".wg")):
+                return "value: a struct field, not a pointer"
+        if k == "nil" and expr.startswith("range "):
+            return "assumption: slices of pointers built by wire decoding / protobuf unmarshalling / the node / this package hold no nil element"
+        if expr.startswith("&"):
+            return "generic: the address of a composite literal is not nil"
+        if e.get("nil_compared") and k == "nil":
+            return "checked: compared with nil before use"
+        if k == "nil" and re.search(r"\.\(\*", expr):
+            return "checked: type assertion with ok test (the value is used only when ok)"
+        if k == "nil" and var in ("credit", "prevTx") and re.search(r"^(indexToCredit|cache)\[", expr):
+            return "checked: map look-up with ok test"
+        if k in ("nil", "nilx") and re.search(r"\]$", expr):
+            return "assumption: element of a slice of pointers that holds no nil (an index entry of the same expression, if the compiler could not prove it, is listed on its own)"
+        if re.search(CONTRACT_NONNIL, expr) or re.search(CONTRACT_NONNIL2, expr):
+            return "contract: the callee returns a usable value when err == nil (or has no error result)"
+        if short in ("mockBindingTarget",) or "mockBindingTarget" in expr:
+            return "constant: NewAddressBindingTarget accepts the constant 22-byte argument (type 0, size 32); exercised by every GetTransactionFee request with has_binding"
+    return None
+
+
 def disposition(e):
+    d = disposition1(e)
+    return d if d is not None else disposition2(e)
+
+
+def disposition1(e):
     """returns (disposition string) or None"""
     k, f, fn, expr, var = e["kind"], e["file"], e["func"], e["expr"], e.get("var", "")
     short = fn.split(".")[-1]
@@ -217,6 +314,21 @@ def main():
             d = "UNCLASSIFIED"
             bad.append(key(e))
         pinned.append({"key": key(e), "count": e["count"], "disposition": d})
+    # entries the PROPOSED repair of GetBindingHistoryDetail (fix-c19api.patch: hash comparison after FetchTxByLoc) adds to that
+    # function: pinned in advance so that the repaired tree checks without drift (an entry that is not reported is only counted)
+    fn = "inlined|masswallet/txmgr/utxostore.go|UtxoStore.GetBindingHistoryDetail||"
+    for x in pinned:
+        if x["key"] == fn + "history.txhash.String()":
+            x["count"] = max(x["count"], 5)
+    have = {x["key"] for x in pinned}
+    for k, d in [(fn + "mHash.String()", "generic:hash_string_in_bounds — wire.Hash.String() inlined (log line of the proposed repair)"),
+                 ("nil|masswallet/txmgr/utxostore.go|UtxoStore.GetBindingHistoryDetail|mHash|msgtx.TxHash()",
+                  "contract: the callee returns a usable value when err == nil (or has no error result) — wire.Hash is an array value (proposed repair)"),
+                 # proposed repair of GetManagedAddressByScriptHashInCurrent (fix-c19api-2.patch)
+                 ("nil|masswallet/keystore/manager.go|KeystoreManager.GetManagedAddressByScriptHashInCurrent|addrManager|km.managedKeystores[km.currentKeystore.accountName]",
+                  "checked: map look-up with found test (proposed repair; model: fx_cur_evicted = true -> ErrCurrentKeystoreNotFound)")]:
+        if k not in have:
+            pinned.append({"key": k, "count": 1, "disposition": d})
     out = {
         "comment": "Pinned inventory of property C19 (see translate/pin_c19_inventory.py and translate/bce_inventory.go). "
                    "Keys are kind|file|function|variable|expression — no line numbers.",
